@@ -51,6 +51,10 @@ SOURCE_SYMBOLS = {
     "csv": ["V1", "V2", "M1", "M2", "M3", "M4", "M5", "M6", "M8", "M9", "M7c"],
     "json": ["V1", "V2", "M1", "M2", "M3", "M4", "M5", "M6", "M8", "M9", "M7a", "M7c"],
     "cli": ["V1", "V2", "M1", "M2", "M3", "M4", "M5", "M6", "M8", "M9"],
+    # dict rows that already carry an 'id' column with non-sequential values
+    "dictid": ["V1", "V2", "M1", "M2", "M8", "M7a"],
+    # non-default column names; the rows also carry a decoy 'reaction' / 'id' column
+    "custom": ["V1", "V2", "M1", "M2", "M8", "M7a"],
 }
 
 
@@ -87,6 +91,18 @@ def build_input(source, seq, d):
         rows.append(r)
     if source == "dict":
         return rows
+    if source == "dictid":
+        for i, r in enumerate(rows):
+            r["id"] = 100 - 7 * i
+        return rows
+    if source == "custom":
+        out = []
+        for i, r in enumerate(rows):
+            o = {"tag": i, "reaction": "C>>C", "id": "row-{}".format(i)}
+            if "reaction" in r:
+                o["rxn"] = r["reaction"]
+            out.append(o)
+        return out
     if source == "json":
         p = os.path.join(d, "in.json")
         with open(p, "w") as f:
@@ -123,6 +139,7 @@ def is_missing(v):
 def check_rows(source, seq, rows, where):
     """-> list of (key, what)"""
     bad = []
+    rcol = "rxn" if source == "custom" else "reaction"
     if rows is None or len(rows) != len(seq):
         return [(["row-count", "lost" if rows is None or len(rows) < len(seq) else "extra"],
                  "{} rows for {} inputs {} ({})".format(None if rows is None else len(rows), len(seq), list(seq), where))]
@@ -138,7 +155,7 @@ def check_rows(source, seq, rows, where):
         if sym in VALID:
             a = alone(sym)
             for k in ("reaction", "solved", "solved_by"):
-                if row.get(k) != a.get(k):
+                if row.get(rcol if k == "reaction" else k) != a.get(k):
                     bad.append((["valid-row-differs", k], "row {} of {}: {} = {!r}, alone-run gives {!r} ({})".format(
                         i, list(seq), k, row.get(k), a.get(k), where)))
         if sym in UNSOLVABLE and row.get("solved") in (True, "True"):
@@ -156,7 +173,7 @@ def api_case(job):
         d = tempfile.mkdtemp(prefix="c05_", dir=_shm())
         try:
             data = build_input(source, seq, d)
-            b = pipeline.balancer()
+            b = pipeline.balancer(reaction_col="rxn", id_col="rid") if source == "custom" else pipeline.balancer()
             b.confidence_threshold = 0
             stats = {}
             sink = io.StringIO()
@@ -279,11 +296,14 @@ def run(tier, seed):
         for source in ("str", "dict", "csv", "json"):
             for seq in sequences(SOURCE_SYMBOLS[source], 2):
                 jobs.append({"source": source, "seq": list(seq)})
+        for source in ("dictid", "custom"):
+            for seq in sequences(SOURCE_SYMBOLS[source], 2):
+                jobs.append({"source": source, "seq": list(seq)})
         for source, sub in (("dict", ["V1", "V2", "M1", "M2", "M8", "M7a"]), ("str", ["V1", "V2", "M1", "M9", "M3", "M5"])):
             for seq in itertools.product(sub, repeat=3):
                 jobs.append({"source": source, "seq": list(seq)})
     else:
-        for source in ("str", "dict", "csv", "json"):
+        for source in ("str", "dict", "csv", "json", "dictid", "custom"):
             nn = 4 if source == "str" else 3
             for seq in sequences(SOURCE_SYMBOLS[source], nn):
                 jobs.append({"source": source, "seq": list(seq)})
@@ -328,7 +348,7 @@ def run(tier, seed):
                 "error, no '>>', reagent style, empty string, empty side, '>>', None, NaN, absent}} (per source the values it can express; quick: length "
                 "<= 2 complete and length 3 over a 6-symbol sub-alphabet for the in-memory sources; thorough: length <= 3 "
                 "for all sources, <= 4 for list-of-str) x batch_size "
-                "None,1..n+1 x sources list-of-str, list-of-dict, CSV Dataset, JSON Dataset; CLI (argparse entry, in "
+                "None,1..n+1 x sources list-of-str, list-of-dict, dict rows with a pre-existing non-sequential id column, custom column names (reaction_col / id_col) with decoy columns, CSV Dataset, JSON Dataset; CLI (argparse entry, in "
                 "process) with --out-columns tag for all sequences of length <= {} x all layouts, {} real subprocess "
                 "runs; refusal of non-str/dict elements.  Non-trivial = distinct (source, sequence) cases containing at "
                 "least one malformed row.".format(n, 3 if tier == "thorough" else 2, len(sub)),
